@@ -53,6 +53,9 @@ func main() {
 		}
 		history(c, rand.New(rand.NewSource(c.Rng.Int63())), ns, per, i%3 == 1, false)
 	}
+	for i := 0; i < 4; i++ {
+		stalled(c, i%2 == 1)
+	}
 	// known-finding class: control responses reusing live system bytes
 	nk := n / 8
 	if nk < 2 {
@@ -280,6 +283,18 @@ func scenarioList() []scenario {
 				return fin(s, done, "chan")
 			}),
 			mk("t3", active, func(s *scen, r *rand.Rand) error {
+				_, done, err := s.send(1, bg, true)
+				if err != nil {
+					return err
+				}
+				s.act("K %d", t3.Milliseconds())
+				return fin(s, done, "timer")
+			}),
+			mk("stalled-write-t3", active, func(s *scen, r *rand.Rand) error {
+				// the peer leaves the primary unread for 0.6 x T3 (the library's write blocks on the
+				// pipe), then reads it and never replies: T3 counts from the write, not from the call
+				s.p.Hold()
+				go func() { time.Sleep(t3 * 6 / 10); s.p.Release() }()
 				_, done, err := s.send(1, bg, true)
 				if err != nil {
 					return err
@@ -681,6 +696,86 @@ func history(c *vh.Ctx, r *rand.Rand, nSenders, per int, active bool, collide bo
 		c.Sum.Histogram["peer/"+k] += behav[k]
 	}
 	oracle(c, es, fmt.Sprintf("history senders=%d %s collide=%v", nSenders, role, collide), log)
+}
+
+// stalled: two concurrent reply-expected senders against a peer that leaves the first primary
+// unread for 0.6 x T3 (one sender is blocked in the transport write, the other queues on the write
+// lock behind it), then reads both and never replies. Exact lower bound: each T3 timeout comes no
+// earlier than T3 after the peer STARTED reading that primary's payload (which precedes the return
+// of the library's write, hence the arming of the timer).
+func stalled(c *vh.Ctx, active bool) {
+	const sT3 = 250 * time.Millisecond
+	e, err := sc.NewEnv(active, 1, sT3, t6)
+	if err != nil {
+		c.Fail("rig: NewEnv", err.Error())
+		return
+	}
+	if err := e.Open(false); err != nil {
+		c.Fail("rig: Open", err.Error())
+		return
+	}
+	p, err := e.Connect(3 * time.Second)
+	if err != nil {
+		c.Fail("rig: Connect", err.Error())
+		_ = e.Close()
+		return
+	}
+	defer p.Close()
+	defer e.Close()
+	if err := e.Select(p, 0xE0000001); err != nil {
+		c.Fail("rig: Select", err.Error())
+		return
+	}
+	p.Hold()
+	type out struct {
+		id  int64
+		res string
+		ret time.Time
+	}
+	outs := make(chan out, 2)
+	for id := int64(1); id <= 2; id++ {
+		id := id
+		go func() {
+			ctx, cancel := context.WithTimeout(context.Background(), 5*time.Second)
+			defer cancel()
+			res, _ := e.SyncSend(ctx, id, 3, 1, true)
+			outs <- out{id, res, time.Now()}
+		}()
+	}
+	time.Sleep(sT3 * 6 / 10)
+	p.Release()
+	what := "stalled-write senders=2 " + map[bool]string{false: "passive", true: "active"}[active]
+	for k := 0; k < 2; k++ {
+		select {
+		case o := <-outs:
+			log := sc.Render(e.Rec.Entries())
+			if o.res != "t3" {
+				c.Fail("rig: stalled-write send returned "+o.res+", want t3", what+" | "+log)
+				continue
+			}
+			v, ok := e.Rec.PayloadAt.Load(o.id)
+			if !ok {
+				c.Fail("rig: peer never read the primary", what+" | "+log)
+				continue
+			}
+			// o.ret is taken after the return, so o.ret - payloadAt over-estimates: exact lower bound
+			if d := o.ret.Sub(v.(time.Time)); d < sT3 {
+				c.Fail(fmt.Sprintf("C06: T3 timeout only %d ms after the primary was written (T3 = %d ms): the reply window started before the write", d.Milliseconds(), sT3.Milliseconds()),
+					fmt.Sprintf("%s | call %d | %s", what, o.id, log))
+			}
+		case <-time.After(10 * time.Second):
+			c.Fail("rig: stalled-write send did not return", what+" | "+sc.Render(e.Rec.Entries()))
+			return
+		}
+	}
+	if !p.Barrier(nil) {
+		c.Fail("rig: barrier", what+" | "+sc.Render(e.Rec.Entries()))
+		return
+	}
+	log := sc.Render(e.Rec.Entries())
+	line := fmt.Sprintf("H %d %d %d | %s", sT3.Milliseconds(), t6.Milliseconds(), 1, log)
+	c.Case(line, what, true)
+	c.Count("history/stalled-write")
 }
 
 // ---------------------------------------------------------------------------------------------
